@@ -1,11 +1,10 @@
 (* C17 — defaults, context lists and sub-directories mean what their expansion means.
-   Proofs: proofs/LoadFacts.v. The textual inlining equivalence (C17_inline_equiv) and the file
-   work-list (loaded once, ${relpath} per file) are exercised by the metamorphic check and the
-   byte-exact correspondence on multi-file projects. *)
+   Proofs: proofs/LoadFacts.v, proofs/LoadOnce.v. The textual inlining equivalence is exercised by
+   the metamorphic check and the byte-exact correspondence on multi-file projects. *)
 From Coq Require Import Ascii String List NArith Bool.
 Import ListNotations.
 Require Import Laze.model.Base Laze.model.Env Laze.model.Path Laze.model.Allow Laze.model.Ninja
-        Laze.model.Ctx Laze.model.Load Laze.proofs.LoadFacts.
+        Laze.model.Ctx Laze.model.Load Laze.proofs.LoadFacts Laze.proofs.LoadOnce.
 Open Scope list_scope.
 
 (* field-wise law of defaults: lists of D first, then the module's own; scalars are its own *)
@@ -65,3 +64,50 @@ Theorem C17_rejects_unknown_parent : forall b,
   finalize b = Err e_unknown_parent.
 Proof. exact unknown_parent_rejected. Qed.
 Print Assumptions C17_rejects_unknown_parent.
+
+(* each lazefile reachable from the project file is loaded once: the work-list ends with distinct
+   file names, the project file first, and the documents handed on are, in order, the documents of
+   exactly these files, each tagged with its file *)
+Theorem C17_files_loaded_once : forall (t : ytree) pf fuel ds (fs : list finc),
+  load_files fuel t [(pf, None)] 0 [] = Ok (ds, fs) ->
+  NoDup (map fst fs) /\
+  map (fun d => (ld_file d, ld_doc d)) ds = docs_of_files t fs /\
+  (exists ext, fs = (pf, None) :: ext).
+Proof. exact load_files_once. Qed.
+Print Assumptions C17_files_loaded_once.
+
+(* ... so the number of loaded documents tagged with a file is the number of documents that file
+   has in the tree (listed by however many subdirs:/includes: entries), or 0 if it is not reached *)
+Theorem C17_loaded_doc_count : forall (t : ytree) pf fuel ds (fs : list finc) f,
+  load_files fuel t [(pf, None)] 0 [] = Ok (ds, fs) ->
+  length (filter (fun d => str_eqb (ld_file d) f) ds) =
+  if existsb (fun inc : finc => str_eqb (fst inc) f) fs then length (odflt [] (alookup f t)) else 0.
+Proof. exact loaded_doc_count. Qed.
+Print Assumptions C17_loaded_doc_count.
+
+(* ${relpath} and ${srcdir} of a module are the directory of the file it is written in *)
+Theorem C17_relpath_is_file_directory : forall build_dir y context is_binary filename defaults m,
+  convert_module build_dir y context is_binary filename defaults = Ok m ->
+  m_relpath m = Some (relpath_of filename) /\ m_defined_in m = Some filename /\
+  (ym_srcdir y = None -> ym_download y = None ->
+   m_srcdir m = Some (if str_eqb (relpath_of filename) [ch_dot] then [] else relpath_of filename)) /\
+  (forall s, ym_srcdir y = Some s -> m_srcdir m = Some s) /\
+  (forall sd, m_srcdir m = Some sd ->
+     alookup (S_ "relpath") (m_env_early m) = Some (Single (relpath_of filename)) /\
+     alookup (S_ "srcdir") (m_env_early m) = Some (Single sd)).
+Proof. exact convert_module_relpath. Qed.
+Print Assumptions C17_relpath_is_file_directory.
+
+(* non-vacuity: a project file listing sub/ twice (subdirs: and includes:) loads sub/laze.yml once *)
+Example C17_ex_once :
+  let d0 := {| d_contexts := None; d_builders := None; d_modules := None; d_apps := None;
+               d_includes := Some [S_ "sub/laze.yml"]; d_subdirs := Some [S_ "sub"; S_ "sub"];
+               d_defaults_module := None; d_defaults_app := None |} in
+  let d1 := {| d_contexts := None; d_builders := None; d_modules := None; d_apps := None;
+               d_includes := None; d_subdirs := None;
+               d_defaults_module := None; d_defaults_app := None |} in
+  match load_files 20 [(S_ "laze-project.yml", [d0]); (S_ "sub/laze.yml", [d1; d1])] [(S_ "laze-project.yml", None)] 0 [] with
+  | Ok (ds, fs) => map ld_file ds = [S_ "laze-project.yml"; S_ "sub/laze.yml"; S_ "sub/laze.yml"]
+  | _ => False
+  end.
+Proof. vm_compute. reflexivity. Qed.
